@@ -86,6 +86,7 @@ type Config struct {
 	KeepTrace bool // keep the whole decision trace (replay files); else last 4096 decisions
 	Fair      int  // consecutive default steps before a forced round-robin switch; 0 = 2000
 	Watch     []string // substrings of yield sites whose visits are recorded (Sim.Watched)
+	AutoAdvance time.Duration // simulated time a Run may let pass on its own while a harness task is natively blocked; 0 = 5 s
 }
 
 // WatchEv is one recorded visit of a watched yield site: the task resumed
@@ -156,6 +157,9 @@ func New(cfg Config) *Sim {
 	}
 	if cfg.Fair == 0 {
 		cfg.Fair = 2000
+	}
+	if cfg.AutoAdvance == 0 {
+		cfg.AutoAdvance = 5 * time.Second
 	}
 	s := &Sim{
 		cfg:    cfg,
@@ -520,6 +524,7 @@ type RunResult struct {
 func (s *Sim) Run(until func() bool) RunResult {
 	var res RunResult
 	start := s.steps
+	var autoAdv, stride time.Duration
 	for {
 		synctest.Wait()
 		s.mu.Lock()
@@ -584,10 +589,34 @@ func (s *Sim) Run(until func() bool) RunResult {
 				}
 			}
 			if pickEnv == nil {
+				// Discrete-event time: a harness task that is natively blocked may be sleeping
+				// or waiting for a timer. Let simulated time pass in growing strides (at most
+				// AutoAdvance per Run) before declaring it stuck; library goroutines that merely
+				// idle (a worker on an empty queue, a ticker loop) do not trigger this.
+				harnessBlocked := false
+				for _, t := range s.tasks {
+					if t.State == StBlocked && !t.Daemon {
+						harnessBlocked = true
+					}
+				}
+				if harnessBlocked && autoAdv < s.cfg.AutoAdvance {
+					if stride == 0 {
+						stride = time.Microsecond
+					}
+					s.mu.Unlock()
+					time.Sleep(stride)
+					autoAdv += stride
+					stride *= 2
+					s.mu.Lock()
+					s.Probes["auto_time_advance"]++
+					s.mu.Unlock()
+					continue
+				}
 				break
 			}
 			s.nextChoice() // keep tape aligned: one choice per decision
 		} else {
+			stride = 0
 			v := s.nextChoice()
 			if v == 0 {
 				pickTask = def
